@@ -9,7 +9,7 @@ fn main() {
     let col: Vec<String> = vec![String::from("a"), String::from("b"), String::from("c")];
     let it = col.into_con_iter();
     let mut b = it.buffered_iter(2);
-    let s = it.into_seq_iter(); drop(s);
-    let k1 = b.next();
-    if let Some(x) = k1 { let _n = x.values.count(); }
+    let c = it.next_chunk(2);
+    drop(b);
+    if let Some(x) = c { let _n = x.values.count(); }
 }
